@@ -72,6 +72,30 @@ fn emit_language(out: &mut impl Write, lc: &LangCtx, langdump: &str) -> Result<(
     Ok(())
 }
 
+/// Rebalancing cases: the unity build constructs deliberately unbalanced trees over this language's
+/// symbols, runs the real ts_subtree_compress / ts_parser__balance_subtree on them and prints the
+/// before / after dumps as cases of the driver (`runbal`).  Not done in --spec (replay) mode.
+fn emit_balance_cases(out: &mut impl Write, lc: &LangCtx, langdump: &str, seed: u64, cases: usize) -> Result<usize, String> {
+    let so = lc.built.dir.join("lang.so");
+    let o = std::process::Command::new(langdump)
+        .arg("balance")
+        .arg(&so)
+        .arg(format!("tree_sitter_{}", lc.built.name))
+        .arg(&lc.id)
+        .arg(format!("{}", seed % 1_000_000))
+        .arg(format!("{cases}"))
+        .output()
+        .map_err(|e| format!("{langdump}: {e}"))?;
+    if !o.status.success() {
+        return Err(format!("langdump balance failed: {}", String::from_utf8_lossy(&o.stderr)));
+    }
+    out.write_all(&o.stdout).unwrap();
+    for c in 0..cases {
+        writeln!(out, "spec bal-{}-{} {} balance:{}:{}", lc.id, c, lc.id, seed % 1_000_000, cases).unwrap();
+    }
+    Ok(cases)
+}
+
 pub struct ParseOutcome {
     pub tree: Option<Tree>,
     pub callbacks: usize,
@@ -202,6 +226,7 @@ struct Stats {
     kinds: std::collections::BTreeMap<String, usize>,
     max_len: usize,
     nodes: usize,
+    balance_cases: usize,
 }
 
 #[allow(clippy::too_many_arguments)]
@@ -495,7 +520,7 @@ fn main() {
         }
     }
     let thorough = tier_is_thorough();
-    let mut st = Stats { cases: 0, max_calls_per_byte_x100: 0, exhausted: 0, kinds: Default::default(), max_len: 0, nodes: 0 };
+    let mut st = Stats { cases: 0, max_calls_per_byte_x100: 0, exhausted: 0, kinds: Default::default(), max_len: 0, nodes: 0, balance_cases: 0 };
     let mut loaded: Vec<LangCtx> = Vec::new();
     let mut emitted: HashSet<String> = HashSet::new();
     let mut get_lang = |id: &str, out: &mut std::io::BufWriter<std::fs::File>, loaded: &mut Vec<LangCtx>| -> Option<usize> {
@@ -521,8 +546,23 @@ fn main() {
         Some(loaded.len() - 1)
     };
 
+    let langdump2 = langdump.clone();
     let run_specs = |specs: &str, tag: &str, out: &mut std::io::BufWriter<std::fs::File>, st: &mut Stats, loaded: &mut Vec<LangCtx>, get_lang: &mut dyn FnMut(&str, &mut std::io::BufWriter<std::fs::File>, &mut Vec<LangCtx>) -> Option<usize>| {
         for (i, line) in specs.lines().enumerate() {
+            // `<lang> balance:<seed>:<cases>` replays the rebalancing cases of a language
+            let words: Vec<&str> = line.split_whitespace().collect();
+            if words.len() >= 2 && words[1].starts_with("balance:") {
+                let f: Vec<&str> = words[1].split(':').collect();
+                if let (Some(seed), Some(n)) = (f.get(1).and_then(|x| x.parse::<u64>().ok()), f.get(2).and_then(|x| x.parse::<usize>().ok())) {
+                    if let Some(k) = get_lang(words[0], out, loaded) {
+                        match emit_balance_cases(out, &loaded[k], &langdump2, seed, n) {
+                            Ok(c) => st.balance_cases += c,
+                            Err(e) => eprintln!("balance cases for {}: {e}", words[0]),
+                        }
+                    }
+                }
+                continue;
+            }
             if let Some((lang, text, edits, ranges)) = parse_spec(line) {
                 if let Some(k) = get_lang(&lang, out, loaded) {
                     let lc = &loaded[k];
@@ -554,6 +594,10 @@ fn main() {
             None => continue,
         };
         let lc = &loaded[k];
+        match emit_balance_cases(&mut out, lc, &langdump, seed_from_env(), if thorough { 60 } else { 10 }) {
+            Ok(n) => st.balance_cases += n,
+            Err(e) => eprintln!("balance cases for {id}: {e}"),
+        }
         let mut parser = Parser::new();
         parser.set_language(&lc.built.language).unwrap();
         let mut base: Vec<u8> = Vec::new();
@@ -616,8 +660,9 @@ fn main() {
     out.flush().unwrap();
     let kinds: Vec<String> = st.kinds.iter().map(|(k, v)| format!("{k}:{v}")).collect();
     eprintln!(
-        "c02: wrote {} cases ({} api nodes, max doc {} bytes, max callbacks/byte x100 = {}, budget-exhausted {}) kinds {}",
+        "c02: wrote {} cases + {} rebalancing cases ({} api nodes, max doc {} bytes, max callbacks/byte x100 = {}, budget-exhausted {}) kinds {}",
         st.cases,
+        st.balance_cases,
         st.nodes,
         st.max_len,
         st.max_calls_per_byte_x100,
